@@ -351,6 +351,18 @@ class History:
         if self.aspect == "C15":
             for live in normalised:
                 self.check_most_frequent(live, what)
+        if self.aspect == "C06":
+            # every other live object (neither receiver nor operand of this step) still stands for its array
+            checked = set(id(l) for l in lives)
+            for live in self.pool:
+                if id(live) in checked or live.m.size > 200000:
+                    continue
+                if not self.structurally_sound(live.x) or tuple(live.x.shape) != tuple(live.m.shape) or \
+                        not numpy.array_equal(gen.index_to_dense(live.x, I64), live.m):
+                    self.violation("bystander-changed:" + what,
+                                   "%s changed a live index that was neither its receiver nor an operand (created by %s): "
+                                   "storage shared with it was written in place" % (what, live.origin))
+            self.ctx.count("bystanders:checked", max(0, len(self.pool) - len(checked)))
 
     def wellformed_quiet(self, x):
         try:
@@ -379,10 +391,23 @@ class History:
                                    "%s: an explicitly requested copy shares storage with its source (%r / %r)" % (what, ka, kb))
 
     # ------------------------------------------------------------------ #
+    def huge(self):
+        """A sparse 2-D index of more than 2^22 cells in which some columns list nothing."""
+        rng = self.rng
+        n = 2 ** 20 + int(rng.integers(1, 200000))
+        cols = int(rng.integers(4, 7))
+        m = numpy.zeros((n, cols), dtype=I64)
+        vals = [v for v in self.vals if v != 0] or [1]
+        for c in range(cols):
+            if rng.random() < 0.5:
+                rows = rng.choice(n, size=int(rng.integers(1, 30)), replace=False)
+                m[rows, c] = rng.choice(vals, size=len(rows))
+        return Live(gen.dense_to_index(m, 0), m, "huge")
+
     def run(self):
         ctx = self.ctx
         try:
-            self.add(self.fresh())
+            self.add(self.huge() if self.profile.get("huge") else self.fresh())
             for step in range(self.nsteps):
                 self.step()
         except Stop:
@@ -404,7 +429,7 @@ class History:
         ops = [("shift_common", 3), ("shift_common_v", 3), ("append", 4), ("update", 4), ("filtered", 3),
                ("sliced", 3), ("slices1d", 1), ("reindexed", 3), ("reindexed_default", 1), ("collapsed", 3),
                ("copy", 1), ("column_stack", 2), ("set_update", 2), ("observe", 2), ("indx", 1), ("fresh", 1),
-               ("from_array_opts", 2)]
+               ("from_array_opts", 2), ("set_update_inplace", 2)]
         only = self.profile.get("ops")
         if only:
             ops = [(o, w) for o, w in ops if o in only]
@@ -876,6 +901,55 @@ class History:
                                   [sorted(exp.get(k, [])) for k in diff[:3]]))
             self.unchanged(osnap, other, which + "(other)")
         self.ctx.count("set_update:checked")
+        return True
+
+    def op_set_update_inplace(self):
+        """Entry-wise set updates applied to a LIVE index, in the forms that have dense semantics:
+        difference / intersection turn cells into the common value, union fills cells that hold the
+        common value."""
+        rng = self.rng
+        r = self.choose(lambda l: l.m.ndim <= 2 and l.m.size > 0)
+        if r is None:
+            return False
+        x, m = r.x, r.m
+        which = gen.pick(rng, ["difference_update", "intersection_update", "union_update"])
+        other = {}
+        keys = list(dict.keys(x))
+        if which == "difference_update":
+            for k in keys:
+                if rng.random() < 0.6:
+                    rows = dict.__getitem__(x, k)
+                    sel = rows[rng.random(len(rows)) < 0.5]
+                    extra = numpy.setdiff1d(numpy.unique(rng.integers(0, m.shape[0], size=int(rng.integers(0, 3)))), rows).astype(U32)
+                    other[k] = numpy.union1d(sel, extra).astype(U32)       # rows not listed under k are ignored
+                    m[(sel.astype(numpy.intp),) + tuple(k[1:])] = x.common
+        elif which == "intersection_update":
+            for k in keys:
+                rows = dict.__getitem__(x, k)
+                if rng.random() < 0.7:
+                    keep = rows[rng.random(len(rows)) < 0.6]
+                    extra = numpy.setdiff1d(numpy.unique(rng.integers(0, m.shape[0], size=int(rng.integers(0, 3)))), rows).astype(U32)
+                    other[k] = numpy.union1d(keep, extra).astype(U32)
+                    drop = numpy.setdiff1d(rows, keep)
+                else:
+                    drop = rows                                            # key absent from other: entry deleted
+                m[(drop.astype(numpy.intp),) + tuple(k[1:])] = x.common
+        else:
+            cols = [()] if m.ndim == 1 else [(c,) for c in range(m.shape[1])]
+            for pos in cols:
+                free = rows_where(m, x.common, pos)
+                if len(free) and rng.random() < 0.8:
+                    sel = numpy.sort(rng.choice(free, size=int(rng.integers(1, min(len(free), 4) + 1)), replace=False))
+                    v = int(gen.pick(rng, [u for u in self.vals + [max(self.vals) + 1] if u != x.common]))
+                    already = dict.get(x, (v,) + pos)
+                    other[(v,) + pos] = sel.astype(U32)
+                    m[(sel.astype(numpy.intp),) + pos] = v
+        snap = monitors.snapshot(other)
+        self.log("set_update_inplace", which=which, keys=len(other))
+        getattr(x, which)(other)
+        self.entry_set_changed = True
+        self.unchanged(snap, other, which + "(other)")
+        self.after_step([r])
         return True
 
     def op_observe(self):
